@@ -96,7 +96,7 @@ def real_data(ck, em, rng, count):
             m = gt.fit(gt.new_machine(em, init, 1, None, sw, "map", prior, None, alpha=alpha), X, chunks)
             w, mu, var = blend(prior, st, rel, um, uv, uw, alpha=alpha)
         else:
-            m = gt.fit(gt.new_machine(em, init, 1, None, sw, "map", prior, rel), X)
+            m = gt.fit(gt.new_machine(em, init, 1, None, sw, "map", prior, rel, switched=(i % 3 == 1)), X)
             w, mu, var = blend(prior, st, rel, um, uv, uw)
         fl = np.asarray(m.variance_thresholds, dtype=float)
         var = np.maximum(var, fl)
@@ -152,7 +152,7 @@ def m3(ck, em, rng, count):
             pen = rel * np.sum((np.asarray(m.means) - np.asarray(prior.means)) ** 2 / (2 * np.asarray(prior.variances)))
             return float(np.asarray(m.log_likelihood(X)).sum() - pen)
         ms, A = gt.trajectory(em, X, init, cap, sw, obj, chunks, trainer="map", prior=prior, rel=rel)
-        final = gt.fit(gt.new_machine(em, init, cap, thr, sw, "map", prior, rel), X, chunks)
+        final = gt.fit(gt.new_machine(em, init, cap, thr, sw, "map", prior, rel, switched=(t % 3 == 2)), X, chunks)
         tr = gt.build_trace("gmm-map", ms, A, X, cap, thr, final)
         trs.append(tr)
         meta.append({"seed": seed, "n": len(X), "C": len(init["weights"]), "relevance": rel, "cap": cap, "thr": thr,
